@@ -1,20 +1,21 @@
 #!/bin/bash
 # seedrun.sh [ids...]: runs the quick check of the property each seeded change breaks against a scratch copy of the
 # repository with the change applied, and records the outcome in seeded/<id>/meta.json (caught_by) and seeded/RESULTS.md
-cd /verif
+V=$(cd "$(dirname "$0")/.." && pwd); cd $V
 IDS=${@:-$(ls seeded | grep -E '^C[0-9]+-')}
 for n in $IDS; do
   P=${n%%-*}
   OUT=$(MUT_LINES=1 ./tools/mutate.sh seeded/$n/patch.diff $P quick 2>&1)
-  V=$(echo "$OUT" | grep -m1 '^VIOLATION' | sed 's/.*:: //' | cut -c1-200)
+  VIO=$(echo "$OUT" | grep -m1 '^VIOLATION' | sed 's/.*:: //' | cut -c1-200)
   R=$(echo "$OUT" | tail -1 | cut -d' ' -f1)
-  python3 - "$n" "$P" "$R" "$V" <<'PY'
+  VROOT=$V python3 - "$n" "$P" "$R" "$VIO" <<'PY'
 import json,sys
 n,P,R,V=sys.argv[1:5]
-p='/verif/seeded/%s/meta.json'%n
+import os
+p=os.path.join(os.environ.get('VROOT','/verif'),'seeded',n,'meta.json')
 m=json.load(open(p))
 m['caught_by']={'check':'./tools/check %s quick'%P,'result':R,'first_violation':V}
 json.dump(m,open(p,'w'),indent=1)
 PY
-  echo "$n $R :: $V"
-done | tee /verif/out/seedrun.log
+  echo "$n $R :: $VIO"
+done | tee $V/out/seedrun.log
